@@ -819,4 +819,25 @@ def replay_colour_references(index, ob, seed, saved=None):
                     if got_idx in (None, 0) or entry(got_idx) is None or entry(got_idx).strip() != rgb_of(want_name).strip():
                         return _r(True, input=dict(inp, cell=[i, j]), observed=f"{what} index {got_idx} -> table entry {entry(got_idx) if got_idx else None!r}",
                                   expected=f"{want_name} = {rgb_of(want_name)!r}")
+    # 3. multi-section documents: each section has its own palette, references resolve in the ONE colour table of the document
+    for pal in (["red", "darkgreen"], ["navy", "gold", "orchid"], ["blue", "blue"]):
+        dfs = [pl.DataFrame({"a": [f"s{k}r{i}" for i in range(2)], "b": [f"s{k}x{i}" for i in range(2)]}) for k in range(len(pal))]
+        inp = {"sections": len(pal), "text_color_per_section": pal}
+        try:
+            s = rtf.RTFDocument(df=dfs, rtf_body=[rtf.RTFBody(text_color=[c], as_colheader=False) for c in pal],
+                                rtf_column_header=[[None] for _ in pal]).rtf_encode()
+        except Exception as e:
+            return _r(True, input=inp, observed=f"{type(e).__name__}: {e}")
+        ct = re.search(r"\{\\colortbl\s*;([^}]*)\}", s)
+        table = [e for e in (ct.group(1).replace("\n", "").split(";") if ct else []) if e.strip() != ""]
+        rows = [r for p in parse(s).pages for r in p.rows]
+        if len(rows) != 2 * len(pal):
+            continue
+        for k, r in enumerate(rows):
+            want_name = pal[k // 2]
+            want = svc.get_color_rtf_code(want_name).rstrip(";").strip()
+            for cell in r.cells:
+                got = table[cell.cf - 1].strip() if cell.cf and 1 <= cell.cf <= len(table) else None
+                if got != want:
+                    return _r(True, input=dict(inp, section=k // 2), observed=f"text colour index {cell.cf} -> table entry {got!r}", expected=f"{want_name} = {want!r}")
     return _r(False)
